@@ -372,7 +372,10 @@ pub fn check_case(c: &LineCase, cx: &mut Ctx) -> R {
     let dl = DebugLine::new(&section, endian);
     let comp_dir = EndianSlice::new(&b"/comp/dir"[..], endian);
     let comp_name = EndianSlice::new(&b"comp.c"[..], endian);
-    let parse = || dl.program(DebugLineOffset(c.lead_pad), h.address_size, Some(comp_dir), if c.comp_name { Some(comp_name) } else { None });
+    // a DWARF 5 header carries its own address size: whatever the caller passes (the size of the unit it came from,
+    // or a default) must not matter - half of the v5 cases pass a different one
+    let caller_address_size = if h.version >= 5 && c.prog.len() % 2 == 1 { if h.address_size == 8 { 4 } else { 8 } } else { h.address_size };
+    let parse = || dl.program(DebugLineOffset(c.lead_pad), caller_address_size, Some(comp_dir), if c.comp_name { Some(comp_name) } else { None });
     let program = match parse() {
         Ok(p) => p,
         Err(e) => fail!("c04/header/rejected", "well-formed header rejected: {:?} (header {:?})", e, h),
